@@ -814,6 +814,22 @@ for _n, _k in (('Range', 2), ('RangeFrom', 1), ('RangeTo', 1), ('RangeFull', 0),
     ADT_MODELS[_n] = _adt_range(_n, _k)
 
 
+@model('RangeInclusive::contains', 'Range::contains', '<RangeInclusive as RangeBounds>::contains', '<Range as RangeBounds>::contains')
+def _range_contains(it, key, raw, args):
+    r = deref(args[0])
+    x = scal(deref(args[1]))
+    lo, hi = scal(r.f(0)), scal(r.f(1))
+    if r.ty == 'RangeInclusive':
+        return b_and(lo.t <= x.t, x.t <= hi.t)
+    return b_and(lo.t <= x.t, x.t < hi.t)
+
+
+@model('RangeInclusive::start', 'RangeInclusive::end')
+def _range_incl_bounds(it, key, raw, args):
+    r = deref(args[0])
+    return Ref(r.fields[0 if raw.endswith('start') else 1])
+
+
 @model('RangeInclusive::new')
 def _range_incl_new(it, key, raw, args):
     return Agg('RangeInclusive', [Cell(args[0]), Cell(args[1])])
@@ -1666,6 +1682,16 @@ def _div_ceil(it, key, raw, args):
     if a.conc and b.conc:
         return SInt(-(-a.t // b.t), a.ty)
     return SInt((a.t + b.t - 1) / b.t, a.ty)
+
+
+@int_method('is_multiple_of')
+def _is_multiple_of(it, key, raw, args):
+    a, b = args
+    if a.conc and b.conc:
+        return (a.t == 0) if b.t == 0 else (a.t % b.t == 0)
+    if b.conc and b.t > 0:
+        return a.t % b.t == 0
+    raise Unsupported('symbolic is_multiple_of')
 
 
 @int_method('is_power_of_two')
